@@ -6,12 +6,20 @@
 //   end
 // ->
 //   M <id> ok <IndexSize>                      | M <id> error <message>
+//   B <id> <beta>
 //   I <id> <i> <label> <orbital> <spin>          getInfo(i) for every index (labels are plain tokens here)
 //   E <id> <ground energy> <n> <eigenvalues, sorted ascending>           (hex floats)
 //   O <id> <i> <occupancy n_i>                   DensityMatrix::getAverageOccupancy(i)
 //   D <id> <i> <j> <n_i n_j>                     DensityMatrix::getAverageDoubleOccupancy(i,j), i < j
 //   A <id> <i> <j> <re> <im>                     EnsembleAverage of QuadraticOperator(i,j) = <c^+_i c_j>
-//   G <id> <i> <j> <n> <re> <im>                 GreensFunction(c_i, c^+_j)(n) for the Matsubara numbers listed below
+//   G <id> <i> <j> <n> <re> <im>                 GreensFunction(c_i, c^+_j)(n) for the Matsubara numbers listed below, as the
+//                                                library computes it (Lehmann terms with |residue| <= 1e-8 are dropped: documented)
+//   g <id> <i> <j> <n> <re> <im>                 the same with the two drop thresholds of every GreensFunctionPart set to 0 before
+//                                                compute() (MatrixElementTolerance, Terms.is_negligible.Tolerance; private members,
+//                                                reachable because harness TUs are compiled with -fno-access-control): no term is
+//                                                dropped, so two copies of a model must agree to rounding
+//   K <id> <i> <j> <count>                       number of non-zero matrix elements of c_i in the parts of G_ij: an upper bound for the
+//                                                number of Lehmann terms, hence 2*count*1e-8/|w_n| bounds what "G" may have dropped
 //   Z <id>                                       end of the scenario's output
 // The caller must not send a scenario whose index classification is known to be unsafe (null entries): prepare()
 // would dereference a null pointer inside this process.  checks/C18.py asks h_c18 (which survives that) first.
@@ -42,6 +50,7 @@ int main(int argc, char* argv[]) {
         try {
             ParticleIndex N = ed->Idx->getIndexSize();
             printf("M %s ok %u\n", id.c_str(), (unsigned)N);
+            printf("B %s %s\n", id.c_str(), pv::hexd(ed->rho->beta).c_str());
             for (ParticleIndex i = 0; i < N; ++i) {
                 IndexClassification::IndexInfo x = ed->Idx->getInfo(i);
                 printf("I %s %u %s %u %u\n", id.c_str(), (unsigned)i, x.SiteLabel.c_str(), (unsigned)x.Orbital, (unsigned)x.Spin);
@@ -69,6 +78,18 @@ int main(int argc, char* argv[]) {
                 G.prepare(); G.compute();
                 for (size_t k = 0; k < sizeof(MATS) / sizeof(MATS[0]); ++k)
                     printf("G %s %u %u %ld %s\n", id.c_str(), (unsigned)i, (unsigned)j, MATS[k], pv::hexc(G(MATS[k])).c_str());
+                GreensFunction G0(*ed->S, *ed->H, ed->Ops->getAnnihilationOperator(i), ed->Ops->getCreationOperator(j), *ed->rho);
+                G0.prepare();
+                unsigned long K = 0;
+                for (std::list<GreensFunctionPart*>::iterator p = G0.parts.begin(); p != G0.parts.end(); ++p) {
+                    const_cast<RealType&>((*p)->MatrixElementTolerance) = 0.0;
+                    (*p)->Terms.is_negligible.Tolerance = 0.0;
+                    K += (unsigned long)(*p)->C.getRowMajorValue().nonZeros();
+                }
+                G0.compute();
+                for (size_t k = 0; k < sizeof(MATS) / sizeof(MATS[0]); ++k)
+                    printf("g %s %u %u %ld %s\n", id.c_str(), (unsigned)i, (unsigned)j, MATS[k], pv::hexc(G0(MATS[k])).c_str());
+                printf("K %s %u %u %lu\n", id.c_str(), (unsigned)i, (unsigned)j, K);
             }
         } catch (std::exception& ex) {
             printf("M %s error exception-after-build: %s\n", id.c_str(), ex.what());
